@@ -99,7 +99,7 @@ def run(spec):
     rec = {"id": spec["id"], "kill_at": spec["kill_at"], "completed": False, "bounds": [], "pre": {"nin": 0, "nout": 0}, "post": {"nin": 0, "nout": 0},
            "restored": {"nin": 0, "nout": 0}, "live2": {"nin": 0, "nout": 0}, "restored2": {"nin": 0, "nout": 0}, "wire": [], "cont_error": "", "raised": False, "target": spec["target"]}
     try:
-        with watchdog(30):
+        with watchdog(120):
             s = session.Session.__new__(session.Session)
             s.loop, s.scale, s.phase, s.hb, s.steps, s.raw = loop, 1, None, 30, [], []
             j = Journaler(jf)
